@@ -3,6 +3,9 @@ SPECIFICATION MCScriptSpec
 CONSTANTS
   Atoms <- AtomsFull
   Subs <- SubsFull
+  DupCommits <- DupFull
+  DupCreators <- DupCreatorsFull
+  DupSpenders <- DupSpendersFull
   Trunk = 5
   Maturity = 3
   MaxPool = 3
